@@ -123,6 +123,7 @@ def mcmc_case(draw, tier, holes=False, maxN=None):
     net = draw(NC.clean_network(maxN=maxN or (40 if not big else 120), minN=16, max_motifs=30 if not big else 120,
                                 min_topos=1, max_topos=3, min_motifs=6, min_rounds=2, topo_pool=pool))
     net["node_order"] = draw(st.sampled_from(["sorted", "sorted", "by_motifs"]))
+    net["jd_type"] = draw(st.sampled_from(["tuple", "tuple", "list"]))
     L = draw(st.sampled_from([0, 0, 1, 2, 3, 5, 10, 25, 60]))
     nedges = sum(len(NC.motif_edges(net["topos"][ti]["kind"], vs)) for ti, vs in net["motifs"])
     if nedges <= 40 and draw(st.integers(0, 5)) == 5:
